@@ -426,3 +426,114 @@ func c07CharClasses(p *Prog, r *Report, rule string) {
 	}
 	r.Instances(rule, "character classifiers of package semantic", n, len(c07CharClassTable)/2)
 }
+
+// c07ParseDispatch (round 8): which parser an ecosystem name selects. semantic.Parse compares the
+// ecosystem string with constants; the parser called on the true side of each comparison is frozen
+// (SemVer for Pub, not NuGet's case-insensitive four-component order). Grouping the arms of the
+// switch does not change the mapping; moving a name into another group does.
+var c07ParseTable = map[string]string{
+	"Alpine":      "parseAlpineVersion",
+	"CRAN":        "parseCRANVersion",
+	"ConanCenter": "parseSemverVersion",
+	"Debian":      "parseDebianVersion",
+	"Go":          "parseSemverVersion",
+	"Hex":         "parseSemverVersion",
+	"Maven":       "parseMavenVersion",
+	"NuGet":       "parseNuGetVersion",
+	"Packagist":   "parsePackagistVersion",
+	"Pub":         "parseSemverVersion",
+	"PyPI":        "parsePyPIVersion",
+	"Red Hat":     "parseRedHatVersion",
+	"RubyGems":    "parseRubyGemsVersion",
+	"Ubuntu":      "parseDebianVersion",
+	"crates.io":   "parseSemverVersion",
+	"npm":         "parseSemverVersion",
+}
+
+func c07ParseDispatch(p *Prog, r *Report, rule string) {
+	fn := p.Func("semantic", "Parse")
+	if fn == nil || len(fn.Params) < 2 {
+		r.Undecided(rule, "anchor:semantic.Parse", "-", "not found")
+		return
+	}
+	eco := fn.Params[1]
+	got := map[string]string{}
+	for _, b := range fn.Blocks {
+		ifi := blockIf(b)
+		if ifi == nil {
+			continue
+		}
+		bo, ok := ifi.Cond.(*ssa.BinOp)
+		if !ok || bo.Op != token.EQL {
+			continue
+		}
+		var name string
+		if s, isS := constString(bo.Y); isS && bo.X == ssa.Value(eco) {
+			name = s
+		} else if s, isS := constString(bo.X); isS && bo.Y == ssa.Value(eco) {
+			name = s
+		} else {
+			continue
+		}
+		// the parser reached on the true side, before any other comparison of the ecosystem
+		seen := map[*ssa.BasicBlock]bool{}
+		work := []*ssa.BasicBlock{b.Succs[0]}
+		callee := ""
+		for len(work) > 0 && callee == "" {
+			x := work[0]
+			work = work[1:]
+			if seen[x] {
+				continue
+			}
+			seen[x] = true
+			for _, in := range x.Instrs {
+				if c, isC := in.(*ssa.Call); isC {
+					if sc := c.Call.StaticCallee(); sc != nil && p.firstParty(sc) && strings.HasPrefix(sc.Name(), "parse") {
+						callee = sc.Name()
+						break
+					}
+				}
+			}
+			if callee == "" && blockIf(x) == nil {
+				work = append(work, x.Succs...)
+			}
+		}
+		if callee == "" {
+			callee = "-"
+		}
+		if old, dup := got[name]; dup && old != callee {
+			callee = old + "|" + callee
+		}
+		got[name] = callee
+	}
+	var names []string
+	for n := range got {
+		names = append(names, n)
+	}
+	sort.Strings(names)
+	if len(names) == 0 {
+		r.Note("semantic.Parse does not dispatch by comparing the ecosystem with constants (a table?): the dispatch table is not checked")
+		return
+	}
+	if os.Getenv("SCALINT_LEARN") != "" {
+		for _, n := range names {
+			fmt.Fprintf(os.Stderr, "LEARN-PARSEDISPATCH\t%q: %q,\n", n, got[n])
+		}
+	}
+	n := 0
+	for _, name := range names {
+		want, audited := c07ParseTable[name]
+		if !audited {
+			r.Fail(rule, "semantic.Parse:"+name, p.Pos(fn.Pos()), "an ecosystem name that is not in the audited dispatch table is accepted: "+name+" → "+got[name])
+			continue
+		}
+		n++
+		r.Check(got[name] == want, rule, "semantic.Parse:"+name, p.Pos(fn.Pos()), name+" → "+want, fmt.Sprintf("versions of ecosystem %q are parsed by %s instead of %s: they are compared by another ecosystem's rules (NuGet's case-insensitive, four-component order for Pub's SemVer, say), so the ordering disagrees with the ecosystem's published one and with the other members of its family", name, got[name], want))
+	}
+	for name, want := range c07ParseTable {
+		if _, has := got[name]; !has {
+			r.Fail(rule, "semantic.Parse:"+name, p.Pos(fn.Pos()), fmt.Sprintf("ecosystem %q (→ %s on the audited tree) is no longer dispatched by a comparison with the constant", name, want))
+		}
+	}
+	r.Instances(rule, "ecosystem names dispatched by semantic.Parse", n, len(c07ParseTable))
+}
